@@ -14,10 +14,18 @@ def run(ctx):
             "authentic HelloRequest (server) / renegotiation ClientHello (client) sealed with the sender's current write state before / between / after its application records. "
             "The recording and every alone re-run see the same augmented stream; on it the same partitions apply plus a cut at every offset -2..+8 around each spliced group and "
             "'everything up to k bytes behind the group in one call, then the next record in 1- or 3-byte pieces'. The trace (events incl. the level/description of every alert "
-            "handed to the application, delivered plaintext, emitted bytes) must equal the flight-at-a-time reference. distinct_nontrivial = distinct (scenario, role, chunking, "
-            "partial-send) executed.")
+            "handed to the application, delivered plaintext, emitted bytes, and the state the connection leaves behind) must equal the flight-at-a-time reference. State left "
+            "behind, taken after the stream was consumed and the sessions were deleted: for client re-runs a digest of the sslSessionId_t (idLen, id, masterSecret, cipherId, ticket "
+            "state/length/bytes/lifetime, every TLS 1.3 PSK with key, identity and parameters) and length + digest of the first flight a NEW client session created with that "
+            "sslSessionId_t emits (entropy re-seeded to a constant first); for scenarios with full payloads (thorough: all) and both roles additionally a probe: the OTHER endpoint "
+            "of the scenario is replayed flight-at-a-time in the same child, so that the server's session-cache entry / the client's sslSessionId_t exist as after the recorded "
+            "connection, then a follow-up handshake new client(sid) vs new server is run and (established, resumed as seen by client, resumed as seen by server) recorded. The "
+            "server (full TLS <= 1.2 handshakes) and the client (resumed handshakes, TLS 1.3) write application data in the same flight as their Finished, so [Finished][data] "
+            "coalescing occurs in the streams. distinct_nontrivial = distinct (scenario, role, chunking, partial-send) executed.")
     return vflib.std_run(ctx, st, "exploration", rule,
         ["process-global state is equalised by forking every run from one parent snapshot",
+         "state left behind is observed through the client's sslSessionId_t and through a follow-up handshake in the same child; other residue (e.g. the position of the "
+         "session in the cache's LRU list) is not observed",
          "DTLS is out of scope of this property (datagram boundaries are semantic)",
          "the application stops reading once the session failed (input behind a fatal error is C15's subject)",
          "which call reports HANDSHAKE_COMPLETE may depend on coalescing (APP_DATA implies it); while the start of a further record is buffered the report is deferred to the call "
